@@ -12,35 +12,20 @@ structure ALwf (i : Input) (al : AList) : Prop where
   cshape : ∀ e ∈ al, ∀ a ∈ e.2, ∀ c, a.ctx = some c →
     (a.name.toList.head? == some '*') = true ∧ NAShapeOn (effName a.name.toList) a
   nostar : ∀ e ∈ al, ∀ a ∈ e.2, a.ctx = none → (a.name.toList.head? == some '*') = false
-  san : ∀ e ∈ al, ∀ a ∈ e.2, a.isMark = true → a.ctx = none → sanitize a.name = a.name
   src : ∀ e ∈ al, ∃ sg, findGlyph i e.1 = some sg ∧ included i e.1 = true ∧
     ∀ a ∈ e.2, ∃ s ∈ sg.anchors, s.name = a.name ∧ a.x = quantize i.quant s.x ∧ a.y = quantize i.quant s.y ∧
       ∀ c, a.ctx = some c → s.lib = some c
 
 theorem wf_pre {i : Input} (h : wf0 i = true) : i.pre = [] := by
   simp only [wf0, Bool.and_eq_true] at h
-  simpa using h.1.1.1
+  simpa using h.1.1
 
 theorem wf_iff' (i : Input) : wf0 i = true ↔ i.pre = [] ∧
-    (∀ g ∈ i.glyphs, ∀ a ∈ g.anchors, a.name.toList.head? = some '_' → sanitize a.name = a.name) ∧
     (i.glyphs.map (·.name)).Nodup ∧
     (∀ g ∈ i.glyphs, g.name ∈ i.abvm ∨ g.name ∈ i.notAbvm) := by
-  simp only [wf0, Bool.and_eq_true, all_eq_true, Bool.or_eq_true, bne_iff_ne, ne_eq, beq_iff_eq, decide_eq_true_eq,
-    contains_iff_mem, and_assoc, isEmpty_iff]
-  constructor
-  · rintro ⟨h0, h1, h2, h3⟩
-    refine ⟨h0, fun g hg a ha hh => ?_, h2, h3⟩
-    rcases h1 g hg a ha with h | h
-    · exact absurd hh h
-    · exact h
-  · rintro ⟨h0, h1, h2, h3⟩
-    refine ⟨h0, fun g hg a ha => ?_, h2, h3⟩
-    by_cases hh : a.name.toList.head? = some '_'
-    · exact Or.inr (h1 g hg a ha hh)
-    · exact Or.inl hh
+  simp only [wf0, Bool.and_eq_true, all_eq_true, Bool.or_eq_true, decide_eq_true_eq, contains_iff_mem, and_assoc, isEmpty_iff]
 
 theorem wf_iff (i : Input) : wf0 i = true →
-    (∀ g ∈ i.glyphs, ∀ a ∈ g.anchors, a.name.toList.head? = some '_' → sanitize a.name = a.name) ∧
     (i.glyphs.map (·.name)).Nodup ∧
     (∀ g ∈ i.glyphs, g.name ∈ i.abvm ∨ g.name ∈ i.notAbvm) := fun h => ((wf_iff' i).mp h).2
 
@@ -61,9 +46,9 @@ theorem wf_nolib {i : Input} (h : wf i = true) : ∀ g ∈ i.glyphs, ∀ a ∈ g
   exact h.2
 
 theorem alwf_of_ok {i : Input} {al : AList} (hwf : wf0 i = true) (h : anchorLists i = .ok al) : ALwf i al := by
-  obtain ⟨hsan, hnd, _⟩ := wf_iff i hwf
+  obtain ⟨hnd, _⟩ := wf_iff i hwf
   obtain ⟨h1, _, h3⟩ := anchorLists_ok h
-  refine ⟨wf_pre hwf, h3.nodup hnd, ?_, ?_, ?_, ?_, ?_, ?_⟩
+  refine ⟨wf_pre hwf, h3.nodup hnd, ?_, ?_, ?_, ?_, ?_⟩
   · intro e he
     obtain ⟨_, sg, _, _, _, hg⟩ := h1 e he
     exact (glyphAnchors_ok hg).2.2.1
@@ -80,15 +65,6 @@ theorem alwf_of_ok {i : Input} {al : AList} (hwf : wf0 i = true) (h : anchorList
     obtain ⟨_, sg, _, _, _, hg⟩ := h1 e he
     obtain ⟨s, _, hs⟩ := (glyphAnchors_ok hg).1 a ha
     exact (namedAnchor_some hs).2.2.2.2.1 hc
-  · intro e he a ha hmk hc
-    obtain ⟨_, sg, hsg, _, _, hg⟩ := h1 e he
-    obtain ⟨s, hs, hsa⟩ := (glyphAnchors_ok hg).1 a ha
-    obtain ⟨en, _, _, _⟩ := namedAnchor_some hsa
-    have hshape := namedAnchor_plain_shape hsa hc
-    have hhead : s.name.toList.head? = some '_' := by
-      rw [← en, (hshape.mark hmk).1]; rfl
-    rw [en]
-    exact hsan sg hsg s hs hhead
   · intro e he
     obtain ⟨_, sg, hsg, hname, hinc, hg⟩ := h1 e he
     refine ⟨sg, by rw [← hname]; exact findGlyph_of_mem hnd hsg, hinc, ?_⟩
@@ -237,42 +213,35 @@ theorem sanitize_MC {n : String} (h : sanitize n = n) : sanitize ("MC" ++ n) = "
   unfold sanitize at h ⊢
   rw [e, filter_append, f, String.ofList_append, h]
 
-/-- the mark classes and the key → class map of `build` on a well-formed anchor list -/
+/-- the mark class (name) that `_makeMarkClassDefinitions` gives the group of the mark anchor name `n` -/
+def cnOf (i : Input) (al : AList) (n : String) : String :=
+  (alookup (keyOfMarkName n) (makeClassesFrom (preClasses i.pre) (meOf i al)).keyMap).getD ""
+
+/-- the mark classes and the key → class map of `build` on a well-formed anchor list: one class per mark anchor name, under
+    pairwise different names -/
 theorem makeClasses_meOf {i : Input} {al : AList} (w : ALwf i al) :
-    makeClasses (meOf i al) =
-      ⟨(groupNames (meOf i al)).map (fun n => ("MC" ++ n, (groupOf (meOf i al) n).map recOf)),
-       (groupNames (meOf i al)).map (fun n => (keyOfMarkName n, "MC" ++ n))⟩ := by
+    makeClassesFrom (preClasses i.pre) (meOf i al) =
+      ⟨(groupNames (meOf i al)).map (fun n => (cnOf i al n, (groupOf (meOf i al) n).map recOf)),
+       (groupNames (meOf i al)).map (fun n => (keyOfMarkName n, cnOf i al n))⟩ ∧
+    (∀ x ∈ groupNames (meOf i al), ∀ y ∈ groupNames (meOf i al), cnOf i al x = cnOf i al y → x = y) := by
   -- facts about every group name
-  have hname : ∀ n ∈ groupNames (meOf i al), ∃ e ∈ meOf i al, ∃ a ∈ e.2, a.name = n ∧ NAShape a ∧ a.isMark = true ∧ sanitize n = n := by
+  have hname : ∀ n ∈ groupNames (meOf i al), ∃ e ∈ meOf i al, ∃ a ∈ e.2, a.name = n ∧ NAShape a ∧ a.isMark = true := by
     intro n hn
     obtain ⟨e, he, a, ha, han⟩ := mem_groupNames.mp hn
     obtain ⟨_, _, as, has, hall, _⟩ := mem_meOf w he
     obtain ⟨ha1, ha2, ha3⟩ := hall a ha
-    exact ⟨e, he, a, ha, han, shape_of_mem_markNames w has ha1 ha3, ha2,
-      by rw [← han]; exact w.san _ has a ha1 ha2 (plain_of_mem_markNames w has ha1 ha3)⟩
-  have hsan : ∀ n ∈ groupNames (meOf i al), sanitize ("MC" ++ n) = "MC" ++ n := by
-    intro n hn
-    obtain ⟨_, _, _, _, _, _, _, hs⟩ := hname n hn
-    exact sanitize_MC hs
-  have h := makeClasses_closed (meOf i al) (groupNames (meOf i al)) keyOfMarkName ?_ ?_ ?_
-  · unfold makeClasses makeClassesFrom
-    rw [h]
-    congr 1
-    · exact map_congr_left (fun n hn => by rw [hsan n hn])
-    · exact map_congr_left (fun n hn => by rw [hsan n hn])
-  · apply nodup_map_of_injOn (nodup_groupNames _)
+    exact ⟨e, he, a, ha, han, shape_of_mem_markNames w has ha1 ha3, ha2⟩
+  have hKnd : ((groupNames (meOf i al)).map keyOfMarkName).Nodup := by
+    apply nodup_map_of_injOn (nodup_groupNames _)
     intro x hx y hy hxy
-    rw [hsan x hx, hsan y hy] at hxy
-    exact (String.append_right_inj "MC").mp hxy
-  · apply nodup_map_of_injOn (nodup_groupNames _)
-    intro x hx y hy hxy
-    obtain ⟨_, _, ax, _, hax, sx, mx, _⟩ := hname x hx
-    obtain ⟨_, _, ay, _, hay, sy, my, _⟩ := hname y hy
+    obtain ⟨_, _, ax, _, hax, sx, mx⟩ := hname x hx
+    obtain ⟨_, _, ay, _, hay, sy, my⟩ := hname y hy
     rw [← hax, ← hay] at hxy ⊢
     rw [keyOfMarkName_eq sx mx, keyOfMarkName_eq sy my] at hxy
     rw [markName_of_key sx mx, markName_of_key sy my, hxy]
-  · intro n hn
-    obtain ⟨e, he, a, ha, han, sa, ma, _⟩ := hname n hn
+  obtain ⟨asg, a1, a2, a3⟩ := makeClasses_closed (meOf i al) (groupNames (meOf i al)) keyOfMarkName hKnd (by
+    intro n hn
+    obtain ⟨e, he, a, ha, han, sa, ma⟩ := hname n hn
     obtain ⟨_, _, as, has, hall, hnd⟩ := mem_meOf w he
     refine ⟨?_, ?_, ?_⟩
     · have := mem_groupOf_of he ha hnd
@@ -284,6 +253,35 @@ theorem makeClasses_meOf {i : Input} {al : AList} (w : ALwf i al) :
       obtain ⟨_, _, as', has', hall', _⟩ := mem_meOf w he'
       obtain ⟨hg1, hg2, hg3⟩ := hall' gm.2 hgm2
       rw [← hgmn]
-      exact (keyOfMarkName_eq (shape_of_mem_markNames w has' hg1 hg3) hg2).symm
+      exact (keyOfMarkName_eq (shape_of_mem_markNames w has' hg1 hg3) hg2).symm)
+  have hmk : makeClassesFrom (preClasses i.pre) (meOf i al) = ⟨classesOfAsg (meOf i al) asg, kmOfAsg keyOfMarkName asg⟩ := by
+    rw [w.pre]; unfold makeClassesFrom preClasses; simp only [map_nil]; rw [a3]
+  -- the assigned name of every group is `cnOf`
+  have hkeys : ((kmOfAsg keyOfMarkName asg).map (·.1)).Nodup := by
+    have : (kmOfAsg keyOfMarkName asg).map (·.1) = (asg.map (·.1)).map keyOfMarkName := by simp [kmOfAsg]
+    rw [this, a1]; exact hKnd
+  have hcn : ∀ p ∈ asg, cnOf i al p.1 = p.2 := by
+    intro p hp
+    unfold cnOf
+    rw [hmk]
+    simp only
+    rw [alookup_of_mem_nodup hkeys (mem_map.mpr ⟨p, hp, rfl⟩)]; rfl
+  have hasg : asg = (groupNames (meOf i al)).map (fun n => (n, cnOf i al n)) := by
+    rw [← a1, map_map]
+    conv => lhs; rw [← map_id asg]
+    apply map_congr_left
+    intro p hp
+    simp only [Function.comp, id]
+    rw [hcn p hp]
+  refine ⟨?_, ?_⟩
+  · rw [hmk]
+    conv => lhs; rw [hasg]
+    simp [classesOfAsg, kmOfAsg]
+  · have hnd : ((groupNames (meOf i al)).map (cnOf i al)).Nodup := by
+      have : asg.map (·.2) = (groupNames (meOf i al)).map (cnOf i al) := by
+        conv => lhs; rw [hasg]
+        simp
+      rw [← this]; exact a2
+    exact injOn_of_nodup_map hnd
 
 end Ufo2ft.C06
